@@ -23,3 +23,31 @@ Definition zp_np_recombine (p : Z) (points : list (nat * list Z)) (xr : Z) : lis
 
 Definition zp_recomb_vector (p : Z) (xs : list nat) (xr : Z) : list Z :=
   zv (@recomb_vector (ZpOps p) (map (zp_of_nat p) xs) (mkZp p xr)).
+
+Require Import MPyC.Secrecy.
+(** C13: coefficient tape that makes parties with x-coordinates xs (1-based) see shares ys *)
+Definition zp_psi (p : Z) (s : Z) (xs : list nat) (ys : list Z) : list Z :=
+  zv (@psi (ZpOps p) (mkZp p s) (map (zp_of_nat p) xs) (zl p ys)).
+
+Require Import MPyC.PRSS.
+Local Open Scope Z_scope.
+(** C15: tables of PRF outputs as association lists keyed by the subset (ascending party ids) *)
+Fixpoint list_nat_eqb (a b : list nat) : bool :=
+  match a, b with
+  | [], [] => true
+  | x :: a', y :: b' => Nat.eqb x y && list_nat_eqb a' b'
+  | _, _ => false
+  end.
+Definition lookupZ (tbl : list (list nat * Z)) (S : list nat) : Z :=
+  match find (fun e => list_nat_eqb (fst e) S) tbl with Some e => snd e | None => 0 end.
+Definition lookupZs (tbl : list (list nat * list Z)) (S : list nat) : list Z :=
+  match find (fun e => list_nat_eqb (fst e) S) tbl with Some e => snd e | None => [] end.
+
+(** all m parties' pseudorandom shares for one value *)
+Definition zp_prss (p : Z) (m : nat) (tbl : list (list nat * Z)) : list Z :=
+  map (fun i => zval (@prss_share (ZpOps p) (zp_of_nat p) m i (map fst tbl) (fun S => mkZp p (lookupZ tbl S))))
+      (seq 0 m).
+Definition zp_prss_zero (p : Z) (m : nat) (tbl : list (list nat * list Z)) : list Z :=
+  map (fun i => zval (@prss_zero_share (ZpOps p) (zp_of_nat p) m i (map fst tbl) (fun S => zl p (lookupZs tbl S))))
+      (seq 0 m).
+Definition zp_f_S_i (p : Z) (m i : nat) (S : list nat) : Z := zval (@f_S_i (ZpOps p) (zp_of_nat p) m i S).
